@@ -134,7 +134,14 @@ func c20RunRaw(cs c20Case) (fs []F) {
 	case "wstriped", "rstriped":
 		sls := make([]dyn.Sl, cs.C)
 		for i := range sls {
-			sls[i] = sentSl(t2, cs.N)
+			switch {
+			case cs.N == -1 || cs.N == -2 && i%2 == 0: // nil nested slices: all of them, or every other one
+				sls[i] = dyn.NilSl(t2)
+			case cs.N == -2:
+				sls[i] = sentSl(t2, 2)
+			default:
+				sls[i] = sentSl(t2, cs.N)
+			}
 		}
 		ret := -1
 		if cs.Op == "wstriped" {
@@ -408,6 +415,10 @@ func init() {
 						for n := 0; n <= 3; n++ {
 							add("write", func(cs *c20Case) { cs.T2, cs.N = tn(t2), n })
 							add("read", func(cs *c20Case) { cs.T2, cs.N = tn(t2), n })
+							add("wstriped", func(cs *c20Case) { cs.T2, cs.N = tn(t2), n })
+							add("rstriped", func(cs *c20Case) { cs.T2, cs.N = tn(t2), n })
+						}
+						for n := -2; n <= -1; n++ { // nil nested slices
 							add("wstriped", func(cs *c20Case) { cs.T2, cs.N = tn(t2), n })
 							add("rstriped", func(cs *c20Case) { cs.T2, cs.N = tn(t2), n })
 						}
